@@ -8,11 +8,14 @@ import (
 	"bytes"
 	"errors"
 	"fmt"
+	"io"
 	"io/fs"
 	"os"
+	"runtime"
 	"sort"
 	"strings"
 	"sync"
+	"sync/atomic"
 	"testing"
 	"time"
 
@@ -20,10 +23,46 @@ import (
 	"pgregory.net/rapid"
 
 	"verif/internal/ev"
+	"verif/internal/kf"
 )
 
+const kfWCSRace = "C09-WCS-REFRACE"
+
+// yieldReader hands the value to Set in chunks and yields the processor between them: Set takes an io.Reader, and a
+// slow one (a network stream) keeps the file half-written for longer, so that a reader that is wrongly admitted next to
+// a writer has a real chance to see the incomplete file. It does not change what a correct store may answer.
+type yieldReader struct {
+	b      []byte
+	chunk  int
+	yields int
+}
+
+func (y *yieldReader) Read(p []byte) (int, error) {
+	if len(y.b) == 0 {
+		return 0, io.EOF
+	}
+
+	n := y.chunk
+	if n > len(y.b) {
+		n = len(y.b)
+	}
+
+	if n > len(p) {
+		n = len(p)
+	}
+
+	copy(p, y.b[:n])
+	y.b = y.b[n:]
+
+	for i := 0; i < y.yields; i++ {
+		runtime.Gosched()
+	}
+
+	return n, nil
+}
+
 func TestConcurrency(t *testing.T) {
-	ev.Checks(500, 600)
+	ev.Checks(400, 600)
 
 	rapid.Check(t, func(rt *rapid.T) {
 		dir, err := os.MkdirTemp("", "c09-conc-")
@@ -40,12 +79,35 @@ func TestConcurrency(t *testing.T) {
 		}
 
 		writers := rapid.IntRange(1, 4).Draw(rt, "writers")
-		readers := rapid.IntRange(1, 3).Draw(rt, "readers")
+		readers := rapid.SampledFrom([]int{1, 2, 3, 4, 6, 8}).Draw(rt, "readers")
 		deleter := rapid.Bool().Draw(rt, "deleter")
+		cycle := rapid.Bool().Draw(rt, "cycle") // writers delete the id again after each Set but their last one
 		preset := rapid.Bool().Draw(rt, "preset")
 		others := rapid.IntRange(0, 3).Draw(rt, "others")
 		rounds := rapid.IntRange(1, 4).Draw(rt, "rounds")
 		gets := rapid.IntRange(3, 16).Draw(rt, "gets")
+		spin := rapid.Bool().Draw(rt, "spin") // readers keep reading until the writers are done (at most 3000 Gets each)
+		chunk := rapid.SampledFrom([]int{512, 1024, 4096, 65536, 1 << 20}).Draw(rt, "chunk")
+		yields := rapid.SampledFrom([]int{0, 1, 5, 20}).Draw(rt, "yields")
+
+		// C09-WCS-REFRACE (listed): the per-id lock entry of WriteControlledStore can be dropped while in use as soon
+		// as two goroutines use one id. The steer-away is to take turns on the shared id (harness mutex); what is left
+		// of the case is the concurrency between different ids.
+		serialized := kf.Listed(kfWCSRace)
+		if serialized {
+			ev.Excluded(1)
+		}
+
+		var turn sync.Mutex
+
+		onShared := func(f func()) {
+			if serialized {
+				turn.Lock()
+				defer turn.Unlock()
+			}
+
+			f()
+		}
 
 		sizes := []int{17, 4096, 65537, cipherPlain - 27, 300000, 600000, 2*cipherPlain + 5}
 
@@ -82,12 +144,15 @@ func TestConcurrency(t *testing.T) {
 		shared := mkID(1)
 		otherID := func(j int) imap.InternalMessageID { return mkID(10 + j) }
 
-		desc := fmt.Sprintf("writers=%d (values %v) rounds=%d readers=%d gets=%d deleter=%v preset=%v others=%d (values %v) sem=%d",
-			writers, vspecs, rounds, readers, gets, deleter, preset, others, ospecs, cfg.sem)
+		desc := fmt.Sprintf("writers=%d (values %v, handed over in chunks of %d with %d yields) rounds=%d readers=%d gets=%d spin=%v "+
+			"deleter=%v cycle=%v preset=%v others=%d (values %v) sem=%d serialized=%v",
+			writers, vspecs, chunk, yields, rounds, readers, gets, spin, deleter, cycle, preset, others, ospecs, cfg.sem, serialized)
 
 		ev.Case(writers >= 2 || big, ev.Hash(desc),
 			"test:conc", fmt.Sprintf("conc:writers=%d", writers), fmt.Sprintf("conc:deleter=%v", deleter),
-			fmt.Sprintf("conc:preset=%v", preset), fmt.Sprintf("conc:others=%d", others))
+			fmt.Sprintf("conc:preset=%v", preset), fmt.Sprintf("conc:others=%d", others), fmt.Sprintf("conc:spin=%v", spin), fmt.Sprintf("conc:cycle=%v", cycle),
+			fmt.Sprintf("conc:readers=%d", readers),
+			fmt.Sprintf("conc:serialized=%v", serialized))
 
 		if ev.WantSample() {
 			ev.Sample(map[string]any{"test": "conc", "case": desc})
@@ -102,11 +167,14 @@ func TestConcurrency(t *testing.T) {
 		}
 
 		var (
-			mu       sync.Mutex
-			findings []string
-			wg       sync.WaitGroup
-			start    = make(chan struct{})
+			mu          sync.Mutex
+			findings    []string
+			wg          sync.WaitGroup
+			start       = make(chan struct{})
+			writersLeft atomic.Int64
 		)
+
+		writersLeft.Store(int64(writers))
 
 		report := func(f string, a ...any) {
 			mu.Lock()
@@ -125,7 +193,7 @@ func TestConcurrency(t *testing.T) {
 		}
 
 		// a Get error on the shared id is acceptable only as "does not exist", and only if the id can be absent
-		mayBeAbsent := deleter || !preset
+		mayBeAbsent := deleter || cycle || !preset
 
 		checkShared := func(who string, b []byte, err error, p string) {
 			switch {
@@ -159,9 +227,21 @@ func TestConcurrency(t *testing.T) {
 			i := i
 
 			run(func() {
+				defer writersLeft.Add(-1)
+
 				for r := 0; r < rounds; r++ {
-					if err := st.Set(shared, bytes.NewReader(vals[i])); err != nil {
-						report("writer %d: Set(shared, V%d) failed: %v", i+1, i+1, err)
+					onShared(func() {
+						if err := st.Set(shared, &yieldReader{b: vals[i], chunk: chunk, yields: yields}); err != nil {
+							report("writer %d: Set(shared, V%d) failed: %v", i+1, i+1, err)
+						}
+					})
+
+					if cycle && r < rounds-1 {
+						onShared(func() {
+							if err := st.Delete(shared); err != nil && !errors.Is(err, fs.ErrNotExist) {
+								report("writer %d: Delete(shared) failed: %v", i+1, err)
+							}
+						})
 					}
 				}
 			})
@@ -171,19 +251,25 @@ func TestConcurrency(t *testing.T) {
 			i := i
 
 			run(func() {
-				for g := 0; g < gets; g++ {
-					b, err, p := safeGet(st, shared)
-					checkShared(fmt.Sprintf("reader %d get %d", i+1, g), b, err, p)
+				for g := 0; g < gets || (spin && g < 3000 && writersLeft.Load() > 0); g++ {
+					onShared(func() {
+						b, err, p := safeGet(st, shared)
+						checkShared(fmt.Sprintf("reader %d get %d", i+1, g), b, err, p)
+					})
 				}
 			})
 		}
 
 		if deleter {
 			run(func() {
-				for r := 0; r < rounds+1; r++ {
-					if err := st.Delete(shared); err != nil && !errors.Is(err, fs.ErrNotExist) {
-						report("deleter: Delete(shared) failed: %v", err)
-					}
+				for r := 0; r < rounds+1 || (spin && r < 3000 && writersLeft.Load() > 0); r++ {
+					onShared(func() {
+						if err := st.Delete(shared); err != nil && !errors.Is(err, fs.ErrNotExist) {
+							report("deleter: Delete(shared) failed: %v", err)
+						}
+					})
+
+					runtime.Gosched()
 				}
 			})
 		}
@@ -224,6 +310,10 @@ func TestConcurrency(t *testing.T) {
 		// ---- quiescent end state
 		b, gerr, p := safeGet(st, shared)
 		checkShared("final", b, gerr, p)
+
+		if gerr != nil && !deleter {
+			report("final: Get(shared) = %v although every writer's last operation was a Set and nobody else deletes", gerr)
+		}
 
 		want := []string{}
 		if gerr == nil {
